@@ -264,6 +264,17 @@ def _case(arg) -> Dict[str, Any]:
             if e.get("cat") in ("kernel", "gpu_memcpy", "gpu_memset") or str(e.get("name", "")).startswith(("nccl", "Mem")):
                 if isinstance(e.get("args"), dict) and e["args"].get("stream", -1) != -1:
                     e["name"], e["cat"] = "void gemm_kernel_a", "kernel"
+    if seed % 6 == 2:
+        # a CUDA-graph replay: ONE host call (cudaGraphLaunch) whose correlation id is carried by several device activities, some with the same name
+        from hv import synth
+
+        for rk_, evs_ in per_rank.items():
+            steps_ = [e for e in evs_ if str(e.get("name", "")).startswith("ProfilerStep")]
+            t0_ = (steps_[0]["ts"] + 1) if steps_ else max(e["ts"] + e.get("dur", 0) for e in evs_ if e.get("ph") == "X" and e.get("cat") != "Trace") + 5
+            cid = 770_000 + rk_
+            evs_.append(synth.launch(t0_, 2, cid, tid=98, name="cudaGraphLaunch"))
+            for j_, nm_ in enumerate(["void gemm_kernel_a", "void gemm_kernel_a", "ncclKernel_AllReduce_RING_LL_Sum_float", "void gemm_kernel_a", "ncclKernel_AllReduce_RING_LL_Sum_float"]):
+                evs_.append(synth.kernel(nm_, t0_ + 3 + 12 * j_, 10 + j_, 31, cid))
     fails: List[Dict[str, Any]] = []
     n = 0
     inp = {"seed": seed, "num_kernels": num_kernels, "duration_ratio": ratio, "include_memory_kernels": with_mem, "events": per_rank}
